@@ -192,6 +192,26 @@ def main(tier):
                 if why:
                     run.violation("detail:annotation-inconsistent:" + why, dict(rep, term=core))
         run.sample({"oracle": "detailobs", "source": exprs[0][0]})
+        # ---- a run that FAILED has no result and therefore nothing to explain: no spans are published, the text is empty —
+        # whatever the aborted evaluation had rolled before the failing instruction, and whatever the previous run left
+        FAIL_TAILS = [" + 3d0", " + (2d6)d0", " - 0d4", " + 2d6kh0", " + nosuch_fn(1)", " + [1][5]", " + 1/0", " + 'a'*'b'", " + 2d(0)"]
+        flines = []
+        for src, cfg, chks in exprs[: (400 if tier == "thorough" else 120)]:
+            bad, _, _ = gen_expr(r)
+            flines.append(f"detailfail {cfg},L100000 {r.getrandbits(128):032x} {hx(src)} {hx(bad + r.choice(FAIL_TAILS))}")
+        for ln, g in run.go_only("detailfail", flines, go_timeout=300):
+            run.count("detailfail." + g.split()[0])
+            if g.startswith(("panic", "died")):
+                run.violation("detail:crash", {"case": ln, "implementation": g[:300]})
+                continue
+            m = re.match(r"failed spans=(\d+) d=(\S*)$", g)
+            if not m:
+                continue
+            run.nontriv(("fail", ln))
+            if m.group(1) != "0" or unhx(m.group(2)) != b"":
+                t = ln.split()
+                run.violation("detail:published-after-failed-run", {"case": ln, "first": unhx(t[3]).decode(), "failing": unhx(t[4]).decode(),
+                                                                     "spans": int(m.group(1)), "text": unhx(m.group(2)).decode("utf-8", "replace")})
     return run.finish(
         trusted=["Lean 4.33 kernel", "axioms: propext, Classical.choice, Quot.sound", "Go harness + hook VerifMakeDetail + Lean driver",
                  "strings.TrimSpace modelled for ASCII white space only (generated sources use no other)"],
